@@ -334,7 +334,7 @@ def r1_pad(ctx, repo):
     P, L = sym("pad_length_"), sym("L")
     # ---- _create_pad(series)
     series = Src("series", "series", [L])
-    for pscen, pval in (("", sym("pad_length")), ("[pad_length=None]", K(None))):
+    for pscen, pval in (("[pad_length=None]", K(None)), ("", sym("pad_length"))):
         it = mk_interp(repo)
         selfv = SelfV(cls)
         selfv.attrs.update(pad_length_=P, pad_length=pval)
@@ -347,7 +347,6 @@ def r1_pad(ctx, repo):
                       "padded cell has the fitted length pad_length_ also when the option is None",
                       "with pad_length=None the padded cell has length %r, expected the fitted pad_length_"
                       % (getattr(buf, "shape", buf),), loc)
-            break
     if buf is not None:
         if not isinstance(buf, Buf):
             ctx.undecided("R1", c + ":value", "return value is not a fresh array: %r" % (buf,), loc)
@@ -1858,7 +1857,7 @@ def row_layout(ctx, repo, cname, res):
               why, loc, witness={"argument": repr(arg)})
     if cname == "SeriesToSeriesRowTransformer":
         c2 = "%s.transform:result-layout" % cname
-        outs = [e for e in it.events if e.kind == "append" and e.value is not None]
+        outs = [e for e in it.events if e.kind in ("append", "comp-elem") and e.value is not None]
         verdict, shown = None, None
         for e in dedupe(outs):
             v = is_transpose(e.value)
